@@ -3,7 +3,7 @@
    What these theorems do NOT cover (sampled at run time by harness/prop_C13.py):
    OS scheduling of real threads, numba's threading layer, atomicity of tasks. *)
 From Coq Require Import Arith List Bool Permutation.
-From Arim Require Import Model.Chunk Proofs.ChunkProofs.
+From Arim Require Import Model.Chunk Proofs.ChunkProofs Model.MinPlus Proofs.MinPlusProofs.
 Import ListNotations.
 
 (* chunk_array: for every length and every block size >= 1 the slices, in
@@ -40,6 +40,12 @@ Proof. exact run_tiles. Qed.
 Theorem fmt_block_adjusted_positive : forall block_size m, 1 <= m -> 1 <= block_size ->
   1 <= ceil_div block_size m.
 Proof. intros block_size m Hm Hb. exact (ceil_div_pos block_size m Hm Hb). Qed.
+
+(* one task of find_minimum_times computes, on its tile, exactly the block of the unchunked
+   kernel: each task sees complete rows of time_1 and complete columns of time_2 *)
+Theorem fmt_task_is_block : forall T (ltb : T -> T -> bool) (add : T -> T -> T) (t1 t2c : list (list T)) a b c d,
+  minplus ltb add (slice a b t1) (slice c d t2c) = block a b c d (minplus ltb add t1 t2c).
+Proof. exact minplus_tile_lemma. Qed.
 
 (* numba prange loops: iteration p writes result[p] only *)
 Theorem prange_disjoint : forall numpoints, NoDup (flat_map tile_cells (prange_tiles numpoints)).
